@@ -93,7 +93,9 @@ func replayE1(prop, sig string, raw json.RawMessage) int {
 	defer cleanup()
 	rep := &Reporter{Property: prop, bySig: map[string][]*Violation{}}
 	e.Rep = rep
-	if err := configureE1(prop, e); err != nil {
+	if hook := e1ReplayHooks[prop]; hook != nil {
+		hook(e)
+	} else if err := configureE1(prop, e); err != nil {
 		return fail(err)
 	}
 	inits := append([]*Initial{}, e.Initials...)
@@ -136,6 +138,9 @@ func replayE1(prop, sig string, raw json.RawMessage) int {
 	}
 	return 1
 }
+
+// e1ReplayHooks configure the E1 of checks that drive the history search themselves (not through e1Configs).
+var e1ReplayHooks = map[string]func(e *E1){}
 
 func init() {
 	Checks["replay"] = runReplay
